@@ -551,6 +551,7 @@ pub fn run(args: Args) {
     let maps = fixed_maps();
     let nrand: u64 = tier.pick(250_000, 6_000_000);
     let nbig: u64 = tier.pick(0, 1);
+    let quick = tier == kvcore::Tier::Quick;
 
     let t2w3r = &t2w3;
     let t3r = &t3w2_new;
@@ -582,6 +583,10 @@ pub fn run(args: Args) {
                 &t3r[i - t2w3r.len()]
             };
             for (mi, m) in mapsr.iter().enumerate() {
+                // quick tier: depth-3 trees under every second map (no-idxmeta, equal slopes, gaps)
+                if quick && i >= t2w3r.len() && mi % 2 == 1 {
+                    continue;
+                }
                 check_case(&mut acc, &ctx, f, None, m, &eref, (i + mi) as u64, true);
             }
             acc.count(if i < t2w3r.len() {
@@ -645,7 +650,7 @@ pub fn run(args: Args) {
     run.extra("entries_exhaustive_part", json!(128));
     run.extra("entries_sampled_part_universe", json!(512));
     run.extra("sampled_cases", json!(nrand));
-    run.extra("exhaustive_scope", json!("(depth<=2,width<=3) and (depth 3,width<=2) over 10 leaf terms, 6 index-metadata maps, all 128 entries; depth-3/width-3 and deeper trees are sampled only"));
+    run.extra("exhaustive_scope", json!("(depth<=2,width<=3) and (depth 3,width<=2) over 10 leaf terms, all 128 entries, 6 index-metadata maps (quick tier: 3 of the 6 for the depth-3 trees); depth-3/width-3 and deeper trees are sampled only"));
     run.exhaustive = Some(true);
     let a = &run.acc;
     let checks = [
